@@ -211,6 +211,8 @@ def check(db, rep):
     _nested_found(db, rep)
     _raw_cache_coupled(db, rep)
     _morphology_total(db, rep)
+    r17 = rep.rule('r17', 'ERASE-ALIGNED: RefsManager::EraseIn, interpreted on every layout of up to three references and every erased range, refuses without changing anything or removes exactly the references inside the erased text and moves those behind it left by its length - no reference outside the erased text is lost, none is cut', 1)
+    erase_evaluated(db, r17, rep.tier == 'thorough')
     _write_back_and_resolve(db, rep)
 
 
@@ -826,6 +828,71 @@ def _raw_cache_coupled(db, rep):
                 r14.ok(inst, 'followed on every path by a write of the cache', f.loc(c))
     if not n_w:
         r14.broken('no method of ManagedText assigns rawText: the rule has lost its sites')
+
+
+RM = 'ccl::lang::RefsManager'
+
+
+def erase_evaluated(db, rule, thorough):
+    """r17: RefsManager::EraseIn interpreted (with StrRange and ShiftAllAfter) on every layout of up to three references over a short text and
+    every erased range, with and without expansion. Oracle: a refusal changes nothing; an accepted erasure reports a range R that covers the
+    request (the request itself unless expanded), no reference is cut by R, and the references left are exactly those before R, unchanged, and
+    those after R, moved left by the length of R."""
+    from engine.evalmini import Interp, Obj, OutOfFragment
+    er = db.fn(RM + '::EraseIn', required=False)
+    if er is None:
+        rule.broken('anchor vanished: RefsManager::EraseIn')
+        return
+    L = 8 if thorough else 6
+    ivs = [(a, b) for a in range(L) for b in range(a + 1, L + 1)]
+
+    def layouts():
+        yield []
+        for a in ivs:
+            yield [a]
+            for b in ivs:
+                if b[0] >= a[1]:
+                    yield [a, b]
+                    for c in ivs:
+                        if c[0] >= b[1] and c[1] - c[0] <= 2 and b[1] - b[0] <= 2:
+                            yield [a, b, c]
+    mk = lambda a, b: Obj(__cls__='ccl::StrRange', start=a, finish=b)
+    bad, cases = None, 0
+    try:
+        for refs in layouts():
+            for s_ in range(L):
+                for f_ in range(s_ + 1, L + 1):
+                    for ex in (False, True):
+                        this = Obj(__cls__=RM, refs=[Obj(__cls__='ccl::lang::Reference', position=mk(a, b), resolvedText=bytearray(b'x')) for a, b in refs])
+                        got = Interp(db).call(er, [mk(s_, f_), ex], this)
+                        after = [(r['position']['start'], r['position']['finish']) for r in this['refs']]
+                        cases += 1
+                        msg = None
+                        if got is None:
+                            if after != refs:
+                                msg = 'the erasure is refused and the references become %s' % after
+                        else:
+                            R = (got['start'], got['finish'])
+                            ln = R[1] - R[0]
+                            cut = [r for r in refs if not (r[1] <= R[0] or r[0] >= R[1] or (R[0] <= r[0] and r[1] <= R[1]))]
+                            want = [r for r in refs if r[1] <= R[0]] + [(r[0] - ln, r[1] - ln) for r in refs if r[0] >= R[1]]
+                            if not (R[0] <= s_ and R[1] >= f_) or (not ex and R != (s_, f_)):
+                                msg = 'the erased range is reported as [%d,%d)' % R
+                            elif cut:
+                                msg = 'the erasure [%d,%d) is accepted although it cuts the reference at %s' % (R[0], R[1], cut[0])
+                            elif after != want:
+                                msg = 'after erasing [%d,%d) the references are at %s; those outside the erased text, moved left by %d, are %s' % (R[0], R[1], after, ln, want)
+                        if msg and bad is None:
+                            bad = 'references at %s, EraseIn([%d,%d), expand=%s): %s' % (refs, s_, f_, str(ex).lower(), msg)
+    except OutOfFragment as e:
+        if str(e).startswith('call to ') or ' form at ' in str(e):
+            rule.broken('RefsManager::EraseIn outside the evaluable fragment: %s' % e)
+            return
+        bad = bad or 'RefsManager::EraseIn faults: %s' % e
+    if bad:
+        rule.violation('EraseIn', '%s:%d' % (er.file, er.line), bad)
+    else:
+        rule.ok('EraseIn', '%d (layout, range, expand) cases over a text of %d code points' % (cases, L), '%s:%d' % (er.file, er.line))
 
 
 def resolution_idempotent_rule(db, r15):
